@@ -69,3 +69,55 @@ Definition replay_prop (c : rcase) : bool :=
   forallb (fun s => (fst s =? 1) && (0 <=? snd s)) (r_status c) &&
   match r_obsfile c with Some (Some _) => true | _ => false end &&
   (if r_isrun c then list_eqb (opt_eqb zb_eqb) (map (expected_content c) (r_procs c)) (r_contents c) else true).
+
+(* ---------------------------------------------------------------- the caches of read_mapper on real files *)
+(* find_stored_index: (files, dictionary, reference, k-mer size asked for, returned index or None) *)
+Definition fsi_case := (list (path * fstat) * list (path * ientry) * path * Z * option path)%type.
+Definition fsi_check (k : fsi_case) : bool :=
+  let '(fsl, d, ref, kmer, impl) := k in oz_eqb (find_stored_index d ref kmer (fs_of_list fsl)) impl.
+Definition fsi_prop (k : fsi_case) : bool :=
+  let '(fsl, d, ref, kmer, impl) := k in let fs := fs_of_list fsl in
+  match impl with
+  | Some r => match aget d ref with
+              | Some e => oz_eqb (i_index e) (Some r) && mtime_is fs ref (i_ref_mtime e) && mtime_is fs r (i_index_mtime e) && oz_is kmer (i_kmer e)
+              | None => false
+              end
+  | None => true
+  end.
+(* find_stored_bed: (files, dictionary, database, returned BED or None) *)
+Definition fsb_case := (list (path * fstat) * list (path * bentry) * path * option path)%type.
+Definition fsb_check (k : fsb_case) : bool :=
+  let '(fsl, d, db, impl) := k in oz_eqb (find_stored_bed d db (fs_of_list fsl)) impl.
+Definition fsb_prop (k : fsb_case) : bool :=
+  let '(fsl, d, db, impl) := k in let fs := fs_of_list fsl in
+  match impl with
+  | Some r => match aget d db with
+              | Some e => oz_eqb (b_bed e) (Some r) && mtime_is fs db (b_ref_mtime e) && mtime_is fs r (b_bed_mtime e)
+              | None => false
+              end
+  | None => true
+  end.
+(* find_stored_alignment: (files, dictionary, key id, reads, index, annotation, outcome) *)
+Definition fsa_case := (list (path * fstat) * list (path * alentry) * path * path * path * option path * outcome (option path))%type.
+Definition fsa_check (k : fsa_case) : bool :=
+  let '(fsl, d, key, fastq, index, ann, impl) := k in outcome_eqb oz_eqb (find_stored_alignment d key fastq index ann (fs_of_list fsl)) impl.
+Definition fsa_prop (k : fsa_case) : bool :=
+  let '(fsl, d, key, fastq, index, ann, impl) := k in let fs := fs_of_list fsl in
+  match impl with
+  | Ok (Some r) => match aget d key with
+                   | Some e => oz_eqb (a_bam e) (Some r) && mtime_is fs index (a_index_mtime e) && mtime_is fs fastq (a_fastq_mtime e) && mtime_is fs r (a_bam_mtime e)
+                               && match ann with Some ap => mtime_is fs ap (a_ann_mtime e) | None => true end
+                   | None => false
+                   end
+  | _ => true
+  end.
+
+(* ---------------------------------------------------------------- replay of the directory creation step *)
+(* (directory present at the start, processes, schedule, observed: failed with FileExistsError?, directory present at the end, events) *)
+Definition dcase := (bool * list dproc * list nat * list bool * bool * list (nat * Z))%type.
+Definition dir_check (c : dcase) : bool :=
+  let '(dir, ps, sched, failed, dir_end, tr) := c in
+  let st := drun dir ps sched in
+  list_eqb Bool.eqb (map d_failed (snd st)) failed && Bool.eqb (fst st) dir_end && list_eqb nz_eqb (dtrace dir ps sched) tr.
+Definition dir_prop (c : dcase) : bool :=
+  let '(dir, ps, sched, failed, dir_end, tr) := c in forallb negb failed && dir_end.
